@@ -23,6 +23,8 @@ LOG=$V/target/build.log
         || { echo "BUILD-FAILED: shim"; tail -20 $LOG; exit 2; }
     fi
   fi
+  mkdir -p $V/target/helpers
+  ln -sf $V/target/harness/release/fcv $V/target/helpers/fcv-tr
   if [ -d $V/helpers ]; then
     mkdir -p $V/target/helpers
     for f in $V/helpers/*; do
